@@ -16,7 +16,9 @@ for d in dirs:
         # prefer the current tree (later repairs included); fall back to the commit the patch was made on
         sh("git -C %s checkout -q --detach $(git -C /repo rev-parse HEAD) && git -C %s checkout -q -- . && git -C %s clean -fdq" % (SCR, SCR, SCR))
         a = sh("git -C %s apply %s" % (SCR, pd))
+        at = ""
         if a.returncode:
+            at = "  (judged at %s: the patch no longer applies to the current tree)" % base
             sh("git -C %s checkout -q --detach %s && git -C %s checkout -q -- . && git -C %s clean -fdq" % (SCR, base, SCR, SCR))
             a = sh("git -C %s apply %s" % (SCR, pd))
         if a.returncode:
@@ -25,7 +27,7 @@ for d in dirs:
         r = sh("%s/bin/origamilint -prop %s -tier quick -repo %s -verif %s" % (ROOT, prop, SCR, v))
         out = r.stdout + r.stderr
         lines = [l.strip()[:230] for l in out.splitlines() if ("rule=" in l and "KNOWN-FINDING" not in l and "NOTE" not in l) or "CHECKER-ERROR" in l]
-        print("%-22s %s" % (os.path.relpath(os.path.dirname(pd), os.path.dirname(os.path.dirname(d.rstrip("/"))) if "_" in bn else os.path.dirname(d.rstrip("/"))), "SILENT" if r.returncode == 0 else "ALARM rc=%d" % r.returncode))
+        print("%-22s %s" % (os.path.relpath(os.path.dirname(pd), os.path.dirname(os.path.dirname(d.rstrip("/"))) if "_" in bn else os.path.dirname(d.rstrip("/"))), ("SILENT" if r.returncode == 0 else "ALARM rc=%d" % r.returncode) + at))
         for l in lines[:6]: print("      " + l)
         if r.returncode: bad += 1
         shutil.rmtree(v)
